@@ -154,17 +154,17 @@ func checkCholAgainst(t *vlib.T, what string, c *mat.Cholesky, A *M, condCopied 
 		t.Failf("%s: fresh factorization failed", what)
 		return
 	}
+	inv, det, _ := invF64(A)
+	kappa := normInf(A) * normInf(inv)
 	cc, fc := c.Cond(), fresh.Cond()
-	if !(cc >= 0.5*fc && cc <= 2.02*fn*fc) {
+	if !(cc >= kappa/3 && cc <= 1.01*fn*kappa) {
 		cls := ""
 		if (cc == 0 || math.IsInf(cc, 1)) && condCopied {
 			// stale value: 0 in a new receiver, +Inf in a Reset one
 			cls = "cholesky-symrankone-alpha0-cond-not-set"
 		}
-		finding(t, "cond", cls, "%s: Cond = %v, fresh factorization %v", what, cc, fc)
+		finding(t, "cond", cls, "%s: Cond = %v, reference %v (fresh factorization %v)", what, cc, kappa, fc)
 	}
-	inv, det, _ := invF64(A)
-	kappa := normInf(A) * normInf(inv)
 	if !relClose(c.Det(), det, tolForward*fn*eps*kappa) {
 		t.Failf("%s: Det = %v want %v", what, c.Det(), det)
 	}
